@@ -275,6 +275,38 @@ pub fn run(cfg: &Cfg) {
             }
         }
     }
+    // RSA keys of every length (made up; 49 consecutive modulus sizes, so that the DER length takes every
+    // residue modulo the 48 bytes a line of PEM holds): the id is the SHA-256 of the reference encoding of the
+    // description with the key material in the reference PEM form - written here, not by the crate: 64
+    // characters a line, a line feed after every line, none after the END line
+    for nbytes in (256usize..=304).chain([384, 432, 512]) {
+        let spki = match crate::c12::made_up_rsa_spki(&mut r, &mut model, nbytes) {
+            Some(b) => b,
+            None => continue,
+        };
+        for scheme in [in_toto::crypto::SignatureScheme::RsaSsaPssSha256, in_toto::crypto::SignatureScheme::RsaSsaPssSha512] {
+            let scheme_name = serde_json::to_value(&scheme).unwrap();
+            let k = match guarded({ let d = spki.clone(); move || in_toto::crypto::PublicKey::from_spki(&d, scheme) }) {
+                Ok(Ok(k)) => k,
+                _ => continue,
+            };
+            let b64 = data_encoding::BASE64.encode(&spki);
+            let mut pem_text = String::from("-----BEGIN PUBLIC KEY-----\n");
+            for line in b64.as_bytes().chunks(64) {
+                pem_text.push_str(std::str::from_utf8(line).unwrap());
+                pem_text.push('\n');
+            }
+            pem_text.push_str("-----END PUBLIC KEY-----");
+            let written = serde_json::to_value(&k).unwrap();
+            let replay = format!("rsa key of {} modulus bytes, SubjectPublicKeyInfo {}", nbytes, hex(&spki));
+            sink.oracle(written["keyval"]["public"].as_str() == Some(pem_text.as_str()), "the key material of an RSA key is not written in the reference PEM form", &replay);
+            let desc = serde_json::json!({"keytype": "rsa", "scheme": scheme_name, "keyid_hash_algorithms": ["sha256", "sha512"], "keyval": {"public": pem_text}});
+            let want = hex(ring::digest::digest(&ring::digest::SHA256, &olpc(&desc).unwrap()).as_ref());
+            let id = serde_json::to_value(k.key_id()).unwrap();
+            sink.oracle(id.as_str() == Some(want.as_str()), "the id of an RSA key is not the SHA-256 of the reference encoding of its description (reference PEM form)", &replay);
+            sink.stat(&format!("rsa-sizes/der-length-mod-48={}", spki.len() % 48));
+        }
+    }
     let n = if cfg.thorough { 20_000 } else { 1_500 };
     for i in 0..n {
         let key = *r.pick(&ed);
